@@ -319,7 +319,7 @@ func harnessC09Meaningless() {
 		} else {
 			verif.Reach("range rejected")
 			verif.Assert(x > y, "an ascending character range is rejected")
-			verif.Assert(strings.Contains(err.Error(), "invalid character range"), "the error does not name the problem (character range)")
+			verif.Assert(strings.Contains(err.Error(), "range") || strings.Contains(err.Error(), string([]byte{x, '-', y})), "the error does not name the problem (character range)")
 		}
 	default:
 		n1, m1 := verif.Byte("n1"), verif.Byte("m1")
@@ -335,7 +335,7 @@ func harnessC09Meaningless() {
 		} else {
 			verif.Reach("repetition rejected")
 			verif.Assert(nv > mv, "a valid repetition range is rejected")
-			verif.Assert(strings.Contains(err.Error(), "invalid repetition range"), "the error does not name the problem (repetition range)")
+			verif.Assert(strings.Contains(err.Error(), "range") || strings.Contains(err.Error(), "repetition") || strings.Contains(err.Error(), "bound"), "the error does not name the problem (repetition range)")
 		}
 	}
 }
